@@ -10,7 +10,8 @@
 (*     entry (hence: a write creating a dangling reference was refused, a   *)
 (*     delete removed the references to the deleted entries)                *)
 (* L2  transcription of plugins/refint.rs + server/delete.rs + recycle.rs:  *)
-(*     post-write existence check of NEWLY added targets (live only),       *)
+(*     post-write existence check of NEWLY added targets (as implemented:   *)
+(*     one f_inc query under the hidden-entry mask, see NewOk),             *)
 (*     delete = cascade over `refers` dependents, references to the deleted *)
 (*     set removed from every entry (recycled included), revive = restore   *)
 (*     `refers` from cascade_deleted then existence check; and the dynamic  *)
@@ -28,15 +29,25 @@ Dangling(s) == {<<x, a, v>> \in s.ids \X s.attrs \X s.ids :
 NoDangling(s) == Dangling(s) = {}
 
 \* ----------------------------------- L2 -----------------------------------
-\* modify: replace x's values of attribute a by V. refint post_modify: the targets that are NEW
-\* (not in the previous value) must all exist as live entries, else the whole write is refused.
+\* refint post_create / post_modify: the targets that are NEW in the operation (not in the previous values)
+\* are checked by check_uuids_exist_fast = ONE internal_exists over f_inc(uuid = v ...) wrapped in the
+\* ignore-hidden mask. f_inc needs every term to hit the uuid index (recycled and tombstoned entries are
+\* in it), then takes the UNION, then the mask removes the hidden ones - so the check passes as soon as
+\* no target is unknown and at least ONE of them is live. Only when it fails does the slow path look at
+\* the targets one by one (and then refuses).  s is the state AFTER the write was applied.
+NewOk(s, New) == New = {} \/ ((\A v \in New : LvOf(s, v) # "absent") /\ (\E v \in New : LvOf(s, v) = "live"))
+\* what the property asks for
+NewOkL1(s, New) == \A v \in New : LvOf(s, v) = "live"
+
+\* modify: replace x's values of attribute a by V.
 \* `refers` additionally must not point at an entry that itself has `refers` (ReferenceLoop).
 SetRef(s, x, a, V) ==
   LET new == V \ s.ref[x][a]
+      s1  == [s EXCEPT !.ref[x][a] = V]
       ok  == /\ s.lv[x] = "live"
-             /\ \A v \in new : LvOf(s, v) = "live"
+             /\ NewOk(s1, new)
              /\ (a = "refers" => \A v \in V : RefersOf(s, v) = {})
-  IN  IF ok THEN [st |-> [s EXCEPT !.ref[x][a] = V], res |-> "ok"]
+  IN  IF ok THEN [st |-> s1, res |-> "ok"]
       ELSE [st |-> s, res |-> IF s.lv[x] = "live" THEN "err" ELSE "ok"]  \* internal modify of a non-match: ok, no effect
 
 \* delete of live entries D (delete.rs + refint post_delete)
